@@ -80,7 +80,48 @@ def each_reserved_key_removed(name, sink, sink_is_exit=False):
     return allof(*cs)
 
 
+
+def tenant_index_unique(F):
+    """TenantIdMapper: two tenants never share a tenant_index (the index is the upper half of every global document id and the
+    value of `__tenant_idx__`).  load_or_create numbers the tenants by position in a list: the list must be sorted and
+    de-duplicated (AuthManager lists one entry per API key) before it is enumerated, otherwise the map ends with fewer entries
+    than the highest index + 1 and ensure_tenant — which hands out `map.len()` as the next index — collides with an index in
+    use.  ensure_tenant: the new index is map.len() taken under the map's write lock, after the re-check under that lock."""
+    import vlib.mir as _M
+    from vlib.mirflow import origin as _o
+    f = "TenantIdMapper::load_or_create"
+    fc = FnCheck(F, f)
+    if fc.fn is None:
+        return [fc.missing()]
+    ENUM = call(r"as Iterator>::enumerate\(", name="tenant_ids.into_iter().enumerate()")
+    INS = call(r"= HashMap::<(std::string::)?String, u32>::insert\(", name="map.insert(tenant_id, idx)")
+    DEDUP = call(r"= Vec::<(std::string::)?String>::dedup\(|= Vec::<&str>::dedup\(", name="tenant_ids.dedup()")
+    SORT = call(r"::sort(_unstable)?\(", name="tenant_ids.sort()")
+    out = []
+    if fc.count(ENUM) == 0 or fc.count(INS) == 0:
+        return [Result("inconclusive", "load_or_create does not number the tenants by enumerate() + insert any more")]
+    if fc.count(DEDUP) == 0:
+        r = fc.reachable(INS)
+        # a set-based collection (BTreeSet / HashSet) would also be unique
+        setlike = any(re.search(r"(BTreeSet|HashSet)<", (b.term or "")) for b in fc.fn.blocks.values() if not b.cleanup and b.kind == "call")
+        if setlike:
+            return [Result("inconclusive", "tenants are collected through a set; uniqueness not decided structurally")]
+        return [Result("violated" if r.verdict == "holds" else "inconclusive", "load_or_create enumerates the tenant list without de-duplicating it: a tenant with two API keys takes two positions, the map holds fewer entries than "
+                       "the highest index + 1, and the next ensure_tenant (index = map.len()) re-uses an index already assigned — two tenants share one document-id space", queries=r.queries, seconds=r.seconds,
+                       sample={"fn": fc.name, "kind": "PRECEDES", "missing": "Vec::dedup before enumerate"})]
+    out += [fc.precedes(SORT, DEDUP), fc.precedes(DEDUP, ENUM)]
+    g = FnCheck(F, "TenantIdMapper::ensure_tenant")
+    if g.fn is None:
+        return out + [g.missing()]
+    LEN = call(r"= HashMap::<(std::string::)?String, u32>::len\(", name="map.len()")
+    WR = call(r"RwLock.*::write\(", name="self.map.write()")
+    INS2 = call(r"= HashMap::<(std::string::)?String, u32>::insert\(", name="map.insert(tenant_id, next_idx)")
+    out += [g.precedes(WR, LEN), g.precedes(LEN, INS2)]
+    return out
+
 MOS = [
+    MO("O10.6/tenant_index_unique", "TenantIdMapper: tenants are numbered from a sorted, de-duplicated list (load_or_create) and later by map.len() under the write lock (ensure_tenant), so no two tenants share a tenant_index / document-id space",
+       lambda F: tenant_index_unique(F), functions=[("bin/kyrodb_server.rs", "load_or_create"), ("bin/kyrodb_server.rs", "ensure_tenant")], target="kyrodb_server"),
     MO("O10.4/guards", "every data RPC resolves the tenant, enforces the rate limit and maps the document id through the range-checked map_doc_id (successfully) before any engine call",
        allof(*[rpc_guard(n) for n in ("insert", "bulk_insert", "query", "delete", "update_metadata")],
              # bulk_query maps a list of ids in a loop before one engine call (an empty list reaches the engine unmapped, harmlessly)
